@@ -210,7 +210,39 @@ def run(ctx):
     for b in F.all_bodies(WS_LIBS):
         if b.impl and (b.impl.get("trait") or "").endswith("AttachGlobalEntrySink") and b.name in ("try_sink", "try_append"):
             n += 1
-            precedence(ctx, "R17.1", b, is_test_lookup, is_read, "test-sink>attached")
+            delegates = [c for c in b.calls() if c.name == "try_sink" and b.name == "try_append"]
+            if delegates:
+                ctx.ok("R17.1", fnkey(b) + "#test-sink>attached", loc(b), "lookup delegated to try_sink, which is checked itself")
+            else:
+                precedence(ctx, "R17.1", b, is_test_lookup, is_read, "test-sink>attached")
+            if b.name == "try_append":
+                # R17.4: the append to the ATTACHED sink is serialised with detach: it happens while the read guard is held,
+                # so dropping the attach handle (write lock -> take -> drop (sink, join handle)) waits for an append in flight
+                # and flushes what the sink had accepted
+                reads = [c for c in b.calls() if is_read(c)]
+                att = [c for c in b.calls() if is_append(c) and not any(("call", t.bb) in Prov(b).operand(c.args[0]) or ("callf", t.bb) in {x[:2] for x in Prov(b).operand(c.args[0])} for t in b.calls() if is_test_lookup(t))]
+                held = False
+                if reads:
+                    try:
+                        sim = GuardLive(b)
+                        sites = {}
+                        orig = sim.on_call
+
+                        def hook(t, bb, a, env, orig=orig, sites=sites):
+                            c = t.get("callee") or {}
+                            if c.get("name") in ("append", "append_any"):
+                                sites[bb] = bool(a) if bb not in sites else (sites[bb] and bool(a))
+                            return orig(t, bb, a, env)
+                        sim.on_call = hook
+                        sim.run(0, frozenset(), {})
+                        attached_sites = [c.bb for c in att]
+                        held = bool(attached_sites) and all(sites.get(bb_) for bb_ in attached_sites)
+                    except Budget:
+                        held = False
+                ctx.check(held, "R17.4", fnkey(b) + "#attached-append-under-read-lock", loc(b),
+                          "the entry is appended to the attached sink without holding the global's read lock (e.g. through a clone of the sink): dropping the "
+                          "attach handle no longer waits for an append in flight, so an entry can be accepted by a sink that was already flushed and "
+                          "detached - it is neither written nor handed back")
             if b.name == "try_append":
                 def allowed(cs, i):
                     if cs is None:
